@@ -1910,8 +1910,10 @@ theorem step_inv {w : World} (e : Ev) (hI : Inv12 w)
   | start =>
     simp only [step]
     split
-    · exact ⟨hI.env (EnvSame.of_conns rfl rfl rfl rfl) rfl rfl, Or.inl rfl⟩
     · exact ⟨hI, Or.inl rfl⟩
+    · split
+      · exact ⟨hI.env (EnvSame.of_conns rfl rfl rfl rfl) rfl rfl, Or.inl rfl⟩
+      · exact ⟨hI.env (EnvSame.of_conns rfl rfl rfl rfl) rfl rfl, Or.inl rfl⟩
   | app r =>
     simp only [step]
     split
@@ -1932,6 +1934,31 @@ theorem step_inv {w : World} (e : Ev) (hI : Inv12 w)
     split
     · exact ⟨hI, Or.inl rfl⟩
     · split
+      · exact ⟨hI.env (EnvSame.of_conns rfl rfl rfl rfl) rfl rfl, Or.inl rfl⟩
+      · exact ⟨hI.env (EnvSame.of_conns rfl rfl rfl rfl) rfl rfl, Or.inl rfl⟩
+  | waitElapsed =>
+    simp only [step]
+    split
+    · exact ⟨hI.env (EnvSame.of_conns rfl rfl rfl rfl) rfl rfl, Or.inl rfl⟩
+    · exact ⟨hI, Or.inl rfl⟩
+  | cancelCtx =>
+    simp only [step]
+    split
+    · exact ⟨hI, Or.inl rfl⟩
+    · split
+      · exact ⟨hI.env (EnvSame.of_conns rfl rfl rfl rfl) rfl rfl, Or.inl rfl⟩
+      · exact ⟨hI.env (EnvSame.of_conns rfl rfl rfl rfl) rfl rfl, Or.inl rfl⟩
+      · exact ⟨hI.env (EnvSame.of_conns rfl rfl rfl rfl) rfl rfl, Or.inl rfl⟩
+      · rename_i k _
+        have ha : Inv12 { w with ctxCancelled := true, connReady := true } :=
+          hI.env (EnvSame.of_conns rfl rfl rfl rfl) rfl rfl
+        have hb : Inv12 (kill { w with ctxCancelled := true, connReady := true } k) :=
+          ha.env (kill_envSame _ k) rfl rfl
+        have h0 : Inv12 { kill { w with ctxCancelled := true, connReady := true } k with
+            phase := .exited, connectErr := true } :=
+          hb.env (EnvSame.of_conns rfl rfl rfl rfl) rfl rfl
+        have := progress_inv h0
+        exact ⟨this.1, Or.inl this.2.accepted⟩
       · exact ⟨hI.env (EnvSame.of_conns rfl rfl rfl rfl) rfl rfl, Or.inl rfl⟩
       · exact ⟨hI.env (EnvSame.of_conns rfl rfl rfl rfl) rfl rfl, Or.inl rfl⟩
   | connackOk sp inb =>
